@@ -2426,10 +2426,17 @@ evutil_parse_sockaddr_port(const char *ip_as_string, struct sockaddr *out, int *
 	if (port_part == NULL) {
 		port = 0;
 	} else {
-		port = atoi(port_part);
-		if (port <= 0 || port > 65535) {
+		/* the port must be a plain decimal number: no sign, no
+		 * blanks, nothing after the digits ("53x", "1.2.3.4") */
+		char *endptr = NULL;
+		long lport;
+		if (!EVUTIL_ISDIGIT_(*port_part))
+			return -1;
+		lport = strtol(port_part, &endptr, 10);
+		if (*endptr || lport <= 0 || lport > 65535) {
 			return -1;
 		}
+		port = (int)lport;
 	}
 
 	if (!addr_part)
